@@ -124,7 +124,10 @@ def lambdaSource (args : List LArg) (body : String) : String :=
 
 mutual
 /-- `SerializableValue::to_json`.  `Number::from_f64` refuses NaN and ±inf and the code
-    substitutes the integer `0`. -/
+    substitutes the integer `0`.  (Still so in blots-core; since commit afa129b the CLI
+    refuses to output such a value — `reject_non_finite`, modelled by `writable` in
+    Model/Cli.lean — so the rule is unreachable for the CLI's outputs object, but it is
+    what library users of `to_json` get.) -/
 def toJson : SV → Json
   | .num x => if x.isFinite then .num x else .num F64.zero
   | .bool b => .bool b
@@ -160,7 +163,7 @@ def fromValue : Value → Outcome SV
      | .ok l => .ok (.record l) | .err k => .err k | .panic s => .panic s | .fuel => .fuel)
   | .lambda _ args body scope =>
     (match fromValueRec scope with
-     | .ok sc => .ok (.lambda args (exprSrc sc body))
+     | .ok sc => .ok (.lambda args (parenIf (lambdaBodyNeedsParens body) (exprSrc sc body)))
      | .err k => .err k | .panic s => .panic s | .fuel => .fuel)
   | .builtin n => .ok (.builtin n)
   | .spread _ => .err .other
